@@ -752,6 +752,7 @@ static std::string exec(const std::vector<std::string>& t, std::string& preds) {
             });
         } catch (const upa::url_error&) { return "F"; }
     }
+    if (op == "idnahyp" && t.size() == 3) return "hyp=1";   // evaluated on the model side (IDNA oracle) only
     if (op == "cmp" && t.size() == 3) {
         const auto a = parse_units(t[1]), b = parse_units(t[2]);
         std::unique_ptr<char[]> pa(new char[a.size() ? a.size() : 1]), pb(new char[b.size() ? b.size() : 1]);
